@@ -45,6 +45,10 @@ func (n *c05Node) sexpr() string {
 	}
 	switch n.un {
 	case "-":
+		if n.op == "" && n.leaf != "" && n.leaf[0] >= '0' && n.leaf[0] <= '9' {
+			s = "-" + s // the parser folds the sign into a numeric literal
+			break
+		}
 		s = "(negate " + s + ")"
 	case "^":
 		s = "(complement " + s + ")"
@@ -95,6 +99,10 @@ func c05Eval(n *c05Node, env map[string]c05Val) (res c05Val) {
 		if n.leaf != "" && n.leaf[0] >= '0' && n.leaf[0] <= '9' {
 			v, _ := strconv.Atoi(n.leaf)
 			res = c05Val{i: int32(v)}
+		} else if len(n.leaf) == 3 && n.leaf[0] == '\'' {
+			res = c05Val{i: int32(n.leaf[1])} // a character literal is an untyped integer constant
+		} else if n.leaf == "true" || n.leaf == "false" {
+			res = c05Val{isB: true, b: n.leaf == "true"}
 		} else {
 			res = env[n.leaf]
 		}
@@ -407,6 +415,20 @@ func (w *c05Worker) checkExpr(r *core.Run, idx int, kind, expr string, alts []*c
 		r.Violate(core.Violation{Check: "c05", Index: idx, What: "goatlang rejects a function whose body returns a well-typed expression over int/bool parameters", Case: cs, Observed: fo})
 		return
 	}
+	// ... and in the header of an if / switch statement, directly before the opening brace
+	hdrOK := false
+	{
+		body := "switch " + expr + " {\n\tcase 0:\n\t\treturn 0\n\t}\n\treturn 1"
+		if fnT == "bool" {
+			body = "if " + expr + " {\n\t\treturn 1\n\t}\n\treturn 0"
+		}
+		ho := w.m.Eval(nil, "func c05h(a int, b int, c int, d int, e int, p bool, q bool, r bool, s bool, t bool) int {\n\t"+body+"\n}")
+		if ho.Panic != "" || (ho.Err != "" && !strings.Contains(ho.Err, "divide by zero") && !strings.Contains(ho.Err, "shift")) {
+			r.Violate(core.Violation{Check: "c05", Index: idx, What: "goatlang rejects the expression in the header of an if / switch statement", Case: cs, Observed: ho})
+			return
+		}
+		hdrOK = ho.Err == ""
+	}
 	for vi, vec := range c05Vectors {
 		env := c05Env(vec)
 		exp := c05Eval(want, env)
@@ -480,6 +502,27 @@ func (w *c05Worker) checkExpr(r *core.Run, idx int, kind, expr string, alts []*c
 				return
 			}
 			r.Count("evaluations_inside_a_function", 1)
+			if hdrOK {
+				ho := w.m.Call("main.c05h", 1, args...)
+				hgot, hwant := "error", "error"
+				if ho.Panic != "" {
+					hgot = "panic " + ho.Panic
+				} else if ho.Err == "" && len(ho.Rets) == 1 {
+					hgot = ho.Rets[0]
+				}
+				if !exp.err {
+					hwant = "0"
+					if (exp.isB && exp.b) || (!exp.isB && exp.i != 0) {
+						hwant = "1"
+					}
+				}
+				if hgot != hwant {
+					r.Violate(core.Violation{Check: "c05", Index: idx, What: "in the header of an if / switch statement the expression evaluates differently", Case: cs,
+						Expected: map[string]any{"branch": hwant, "value": exp.String(), "grouping": want.sexpr(), "operands": vec}, Observed: ho})
+					return
+				}
+				r.Count("evaluations_in_statement_headers", 1)
+			}
 		}
 		if !exp.err {
 			nontrivial = true
@@ -533,7 +576,7 @@ func c05Flat(n *c05Node) string {
 }
 
 func runC05(r *core.Run) {
-	r.SetRule("every operator sequence x0 op1 x1 .. opk xk (k<=3, 19 binary operators) typed by inference on go/parser's tree, each evaluated on 8 operand vectors; plus unary prefixes on every operand (k<=2) and on every parenthesised group incl. the whole expression, every full parenthesisation (k<=3), expressions continued on the next line after a binary operator, literal operands, sampled k=4 sequences; each also as the body of a function over parameters. non-trivial = parsed by both sides and evaluated without error on at least one vector; distinct by expression text")
+	r.SetRule("every operator sequence x0 op1 x1 .. opk xk (k<=3, 19 binary operators) typed by inference on go/parser's tree, each evaluated on 8 operand vectors; plus unary prefixes on every operand (k<=2) and on every parenthesised group incl. the whole expression, every full parenthesisation (k<=3), expressions continued on the next line after a binary operator, literal operands (integers, characters, bool literals, also under unary operators), sampled k=4 sequences; each also as the body of a function over parameters and in the header of an if / switch statement. non-trivial = parsed by both sides and evaluated without error on at least one vector; distinct by expression text")
 	r.Assume("go/parser implements the Go specification's precedence table; native int32/bool operators are Go's semantics")
 	type job struct {
 		kind, expr string
@@ -633,10 +676,10 @@ func runC05(r *core.Run) {
 					for i := 0; i < nl; i++ {
 						if mask>>uint(i)&1 == 1 {
 							if ul[i].typ != 'i' {
-								ok = false
-								break
+								ul[i].leaf = []string{"true", "false"}[(i+mask)%2]
+							} else {
+								ul[i].leaf = []string{"1", "2", "3", "5", "7", "'a'", "'0'"}[(i+mask)%7]
 							}
-							ul[i].leaf = []string{"1", "2", "3", "5", "7"}[(i+mask)%5]
 							consts++
 						}
 					}
@@ -644,6 +687,20 @@ func runC05(r *core.Run) {
 					// all-constant left operand is computed untyped (recorded finding K04)
 					if ok && consts < nl && !c05ConstShiftLeft(u) {
 						jobs = append(jobs, job{kind: "literal-operands", expr: c05Flat(u)})
+						// ... and with unary operators on the literals (-'a', !true, ^3)
+						w := c05Clone(u)
+						var wl []*c05Node
+						c05Leaves(w, &wl)
+						for i := 0; i < nl; i++ {
+							if mask>>uint(i)&1 == 1 && wl[i].un == "" {
+								if wl[i].typ == 'i' {
+									wl[i].un = []string{"-", "^"}[(i+mask)%2]
+								} else {
+									wl[i].un = "!"
+								}
+							}
+						}
+						jobs = append(jobs, job{kind: "unary-on-literals", expr: c05Flat(w)})
 					}
 				}
 			}
@@ -774,7 +831,7 @@ func runC05(r *core.Run) {
 
 func c05HasVar(n *c05Node) bool {
 	if n.op == "" {
-		return !(n.leaf != "" && n.leaf[0] >= '0' && n.leaf[0] <= '9')
+		return !(n.leaf != "" && (n.leaf[0] >= '0' && n.leaf[0] <= '9' || n.leaf[0] == '\'' || n.leaf == "true" || n.leaf == "false"))
 	}
 	return c05HasVar(n.l) || c05HasVar(n.r)
 }
